@@ -485,6 +485,8 @@ class AbsInt:
         val = env.get(key, ('local', p['local']))
         for e in p['proj']:
             if e == 'deref':
+                while val[0] == 'cast' and val[1][0] in ('ref', 'cast'):
+                    val = val[1]
                 if val[0] == 'ref':
                     key = val[1]
                     dflt = ('mem', key)
@@ -525,6 +527,8 @@ class AbsInt:
         for e in p['proj']:
             if e == 'deref':
                 v = env.get(key)
+                while v is not None and v[0] == 'cast':
+                    v = v[1]
                 if v is not None and v[0] == 'ref':
                     key = v[1]
                 else:
